@@ -24,6 +24,14 @@ class HarnessError(Exception):
     pass
 
 
+class StepBudgetExceeded(BaseException):
+    """Raised inside a run by the step counter (sim/observe.py) when the library has executed more
+    replication-loop steps than any legitimate input of the size we generate needs. Deliberately not an
+    Exception: neither the library's handlers nor the engines' `except Exception` see it. A run that ends
+    this way is INCONCLUSIVE (counted, never a pass for that run and never a violation): the count is a
+    pure function of the input, so the classification replays exactly - unlike a wall-clock timeout."""
+
+
 # ----------------------------------------------------------------------------
 # seeds
 def master_seed():
@@ -84,6 +92,8 @@ def _child_main(fn, arg, wfd, limit):
         os.dup2(devnull, 2)
         try:
             res = {'ok': True, 'result': fn(arg)}
+        except StepBudgetExceeded:
+            res = {'ok': True, 'result': {'budget_exceeded': True}}
         except BaseException:
             res = {'ok': False, 'harness_error': traceback.format_exc()[-4000:]}
         data = json.dumps(res).encode()
